@@ -204,6 +204,13 @@ def run_case(spec):
     }
     if fam.kind == "billing":
         inputs["daily-data-of-same-shape"] = (em.DailyReportingData(rep_df.copy(), is_electricity_data=True), True, "same")
+    if fam.kind == "hourly":
+        # the other hourly family's data object: same name, same shape, a foreign type
+        cfam = FT.Family("caltrack")
+        try:
+            inputs["caltrack-hourly-data-of-the-same-zone"] = (cfam.reporting_data(cfam.reporting_frame(rng, tz, "2019-03-01", 30)), True, "same")
+        except Exception:
+            pass
     if fam.kind == "daily":
         # the billing classes derive from the daily ones: a foreign type all the same (same zone, same columns)
         bfam = FT.Family("billing")
